@@ -226,6 +226,8 @@ impl DagEngine {
           let exp = ranks.get(&a).cmp(&ranks.get(&b));
           let got = dag.topo_cmp(ha, hb);
           if got != exp { vs.push(Violation::new(p11, "dag-topo-cmp", step, format!("topo_cmp({a},{b}) = {got:?} but ranks say {exp:?}"))); return; }
+          if a != b && got == Ordering::Equal { vs.push(Violation::new(&["C10", "C11"], "dag-topo-cmp", step, format!("topo_cmp({a},{b}) = Equal for two distinct live nodes"))); return; }
+          if got != dag.topo_cmp(hb, ha).reverse() { vs.push(Violation::new(p11, "dag-topo-cmp", step, format!("topo_cmp({a},{b}) = {got:?} is not the reverse of topo_cmp({b},{a})"))); return; }
           if exp_trans && got != Ordering::Less { vs.push(Violation::new(&["C10", "C11"], "dag-topo-cmp", step, format!("{a} reaches {b} but topo_cmp = {got:?}"))); return; }
         }
       }
@@ -308,7 +310,7 @@ impl Engine for DagEngine {
     DagScn { hash_seed, ops }
   }
 
-  fn run(&self, scn: &DagScn, _prop: &str) -> RunOutcome {
+  fn run(&self, scn: &DagScn, prop: &str) -> RunOutcome {
     let mut out = RunOutcome::default();
     let mut stats = Stats::default();
     pie_graph::verif::set_hash_seed(Some(scn.hash_seed));
@@ -434,11 +436,14 @@ impl Engine for DagEngine {
       let r = catch(|| {
         let mut v = vec![];
         self.check_c10(&dag, &handles, &rg, step, &mut v);
-        if v.is_empty() { self.check_c11(&dag, &handles, &rg, step, &mut v); }
+        // Both groups are always evaluated: a corrupt order (C10) usually also makes queries answer wrongly (C11).
+        self.check_c11(&dag, &handles, &rg, step, &mut v);
         v
       });
       match r {
-        Ok(v) => { if !v.is_empty() { vs.extend(v); break; } }
+        // Stop at the first violation of the property being decided; violations of the sibling property are kept (a few)
+        // and the history continues, because damage to the order (C10) often shows in queries (C11) only later.
+        Ok(v) => { if !v.is_empty() { let mine = v.iter().any(|x| x.concerns(prop)); if vs.len() < 4 { vs.extend(v); } if mine || vs.len() >= 4 { break; } } }
         Err(p) => { vs.push(Violation::new(&["C10", "C11"], "dag-panic", step, format!("a query panicked: {}", p.short()))); break; }
       }
     }
